@@ -6,3 +6,4 @@ package multiproof
 const verifOn = false
 
 func verifGate(start, end int) {}
+func verifSent(start, end int) {}
